@@ -19,6 +19,14 @@ def GoodNum (w : Bytes) : Prop := w ≠ [] ∧ w.all isDigit = true
 /-- what follows a word: end of input or a space -/
 def Sep (r : Bytes) : Prop := r = [] ∨ ∃ r', r = 32 :: r'
 
+/-- what may follow a word: end of input, a space, or the `@` of a variable (`name@host.tld`) -/
+def SepW (r : Bytes) : Prop := r = [] ∨ ∃ d r', r = d :: r' ∧ (d = 32 ∨ d = 64)
+
+theorem Sep.toW {r : Bytes} (h : Sep r) : SepW r := by
+  rcases h with h | ⟨r', h⟩
+  · exact Or.inl h
+  · exact Or.inr ⟨32, r', h, Or.inl rfl⟩
+
 /-- table facts about the bytes of words (re-checked against the regenerated tables on every build) -/
 theorem wordByte_facts (c : UInt8) (h : isWordByteB c = true) :
     notWordAccept c = true ∧ c ≠ 46 ∧ c ≠ 96 ∧ c ≠ 39 ∧ c ≠ 38 ∧ c ≠ 32 := by
@@ -29,6 +37,7 @@ theorem wordByte_facts (c : UInt8) (h : isWordByteB c = true) :
   exact ⟨a, b, c', d, e, f⟩
 
 theorem space_facts : notWordAccept 32 = false ∧ isDigit 32 = false := by decide +kernel
+theorem at_facts : notWordAccept 64 = false := by decide +kernel
 
 theorem spn_all (p : UInt8 → Bool) : ∀ (l : Bytes), l.all p = true → spn p l = l.length
   | [], _ => rfl
@@ -42,6 +51,14 @@ theorem spn_run (p : UInt8 → Bool) (w r : Bytes) (hw : w.all p = true) (hr : r
   rcases hr with rfl | ⟨r', rfl⟩
   · simp [spn_all p w hw]
   · exact spn_append_stop p w 32 r' hw h32
+
+theorem spn_runW (p : UInt8 → Bool) (w r : Bytes) (hw : w.all p = true) (hr : SepW r) (h32 : p 32 = false) (h64 : p 64 = false) :
+    spn p (w ++ r) = w.length := by
+  rcases hr with rfl | ⟨d, r', rfl, hd⟩
+  · simp [spn_all p w hw]
+  · rcases hd with rfl | rfl
+    · exact spn_append_stop p w 32 r' hw h32
+    · exact spn_append_stop p w 64 r' hw h64
 
 theorem goodWord_bytes {w : Bytes} (h : GoodWord w) : w.all isWordByteB = true ∧ 1 ≤ w.length := by
   obtain ⟨⟨c, t, rfl, hc, ht⟩, _⟩ := h
@@ -69,12 +86,12 @@ theorem splitLoop_none (rest : Bytes) (t : Token) (hv : t.val.length = t.len)
     · simp only [hi, ↓reduceIte]
 
 /-- **a good word is lexed as one bareword** spanning exactly the word -/
-theorem parseWord_good (w r : Bytes) (hw : GoodWord w) (hr : Sep r) :
+theorem parseWord_good (w r : Bytes) (hw : GoodWord w) (hr : SepW r) :
     parseWord (w ++ r) = .ok { tok := { cat := 110, pos := 0, len := clip w.length, val := w.take (clip w.length) },
                                next := w.length } := by
   obtain ⟨hall, hlen⟩ := goodWord_bytes hw
   have hnw : w.all notWordAccept = true := all_imp hall (fun c hc => (wordByte_facts c hc).1)
-  have hspn := spn_run notWordAccept w r hnw hr space_facts.1
+  have hspn := spn_runW notWordAccept w r hnw hr space_facts.1 at_facts
   have hcl := clip_le w.length
   unfold parseWord
   simp only [hspn]
@@ -100,8 +117,8 @@ theorem parseWord_good (w r : Bytes) (hw : GoodWord w) (hr : Sep r) :
   · simp only [hlt, ↓reduceIte]
 
 /-- the bytes of `w ++ r` up to and including the separator -/
-theorem rest_idx (w r : Bytes) (hall : w.all isWordByteB = true) (hr : Sep r) (i : Nat) (x : UInt8)
-    (hi : i ≤ w.length) (h : (w ++ r)[i]? = some x) : isWordByteB x = true ∨ x = 32 := by
+theorem rest_idx (w r : Bytes) (hall : w.all isWordByteB = true) (hr : SepW r) (i : Nat) (x : UInt8)
+    (hi : i ≤ w.length) (h : (w ++ r)[i]? = some x) : isWordByteB x = true ∨ x = 32 ∨ x = 64 := by
   rcases Nat.lt_or_ge i w.length with hl | hg
   · rw [List.getElem?_append_left hl] at h
     exact Or.inl (List.all_eq_true.mp hall x (List.mem_of_getElem? h))
@@ -109,13 +126,17 @@ theorem rest_idx (w r : Bytes) (hall : w.all isWordByteB = true) (hr : Sep r) (i
     subst this
     rw [List.getElem?_append_right (Nat.le_refl _)] at h
     simp only [Nat.sub_self] at h
-    rcases hr with rfl | ⟨r', rfl⟩
+    rcases hr with rfl | ⟨d, r', rfl, hd⟩
     · simp at h
-    · right; simpa using h.symm
+    · have hx : x = d := by simpa using h.symm
+      rcases hd with rfl | rfl
+      · exact Or.inr (Or.inl hx)
+      · exact Or.inr (Or.inr hx)
 
-theorem idx_ne (x : UInt8) (h : isWordByteB x = true ∨ x = 32) : x ≠ 39 ∧ x ≠ 38 := by
-  rcases h with h | h
+theorem idx_ne (x : UInt8) (h : isWordByteB x = true ∨ x = 32 ∨ x = 64) : x ≠ 39 ∧ x ≠ 38 := by
+  rcases h with h | h | h
   · have := wordByte_facts x h; exact ⟨this.2.2.2.1, this.2.2.2.2.1⟩
+  · subst h; decide
   · subst h; decide
 
 /-- what the prefix lexers (`b'`, `e'`, `n'`, `q'`, `u&'`, `x'`) look at before falling back to `parseWord` -/
@@ -123,7 +144,7 @@ structure NoQuote (rest : Bytes) : Prop where
   one : ∀ x, rest[1]? = some x → x ≠ 39 ∧ x ≠ 38
   two : (rest[1]? = some 113 ∨ rest[1]? = some 81) → ∀ x, rest[2]? = some x → x ≠ 39
 
-theorem noQuote_good (w r : Bytes) (hw : GoodWord w) (hr : Sep r) : NoQuote (w ++ r) := by
+theorem noQuote_good (w r : Bytes) (hw : GoodWord w) (hr : SepW r) : NoQuote (w ++ r) := by
   obtain ⟨hall, hlen⟩ := goodWord_bytes hw
   refine ⟨fun x hx => idx_ne x (rest_idx w r hall hr 1 x hlen hx), fun hq x hx => ?_⟩
   have h2 : 2 ≤ w.length := by
@@ -131,15 +152,18 @@ theorem noQuote_good (w r : Bytes) (hw : GoodWord w) (hr : Sep r) : NoQuote (w +
     · omega
     · exfalso
       have e1 : w.length = 1 := by omega
-      have h32 : ∀ y, (w ++ r)[1]? = some y → y = 32 := by
+      have h32 : ∀ y, (w ++ r)[1]? = some y → y = 32 ∨ y = 64 := by
         intro y hy
         rw [List.getElem?_append_right (by omega), e1] at hy
-        rcases hr with rfl | ⟨r', rfl⟩
+        rcases hr with rfl | ⟨d, r', rfl, hd⟩
         · simp at hy
-        · simpa using hy.symm
+        · have : y = d := by simpa using hy.symm
+          rcases hd with rfl | rfl
+          · exact Or.inl this
+          · exact Or.inr this
       rcases hq with hq | hq
-      · exact absurd (h32 _ hq) (by decide)
-      · exact absurd (h32 _ hq) (by decide)
+      · rcases h32 _ hq with h | h <;> exact absurd h (by decide)
+      · rcases h32 _ hq with h | h <;> exact absurd h (by decide)
   exact (idx_ne x (rest_idx w r hall hr 2 x h2 hx)).1
 
 theorem getElem_of (rest : Bytes) (i : Nat) (h : i < rest.length) : rest[i]? = some rest[i] :=
@@ -316,6 +340,28 @@ theorem dispatch_space : dispatch 32 = .white := by decide +kernel
 /-- the token a good word or number is lexed to -/
 def goodTok (cat : UInt8) (w : Bytes) : Token := { cat := cat, pos := 0, len := clip w.length, val := w.take (clip w.length) }
 
+/-- through the dispatch table, a good word followed by end of input, a space or `@` becomes one bareword -/
+theorem runP_goodWord (flags : Nat) (w r : Bytes) (hw : GoodWord w) (hr : SepW r) (c : UInt8) (hc : (w ++ r)[0]? = some c) :
+    runP flags (w ++ r) (dispatch c) = .ok { tok := goodTok 110 w, next := w.length } := by
+  have hw0 := hw
+  obtain ⟨⟨c0, t, hwe, hc0, ht⟩, _⟩ := hw0
+  have hcc : c = c0 := by
+    rw [hwe] at hc; simpa using hc.symm
+  subst hcc
+  have hne : w ++ r ≠ [] := by rw [hwe]; simp
+  have hq := noQuote_good w r hw hr
+  have hword := parseWord_good w r hw hr
+  have hd := dispatch_wordStart c hc0
+  unfold runP
+  cases hdc : dispatch c <;> simp only [hdc, wordyP] at hd ⊢ <;> (try (exact absurd hd (by decide)))
+  · exact hword
+  · rw [parseUString_word _ hq]; exact hword
+  · rw [parseQStringCore_word _ 0 (by omega) hne hq]; exact hword
+  · rw [parseNqString_word _ hne hq]; exact hword
+  · rw [parseXBString_word _ _ hq]; exact hword
+  · rw [parseXBString_word _ _ hq]; exact hword
+  · rw [parseEString_word _ hq]; exact hword
+
 /-- **through the dispatch table, a good word becomes one bareword and an unsigned integer one number** -/
 theorem runP_good (flags : Nat) (w r : Bytes) (hw : GoodWord w ∨ GoodNum w) (hr : Sep r) (c : UInt8)
     (hc : (w ++ r)[0]? = some c) :
@@ -329,8 +375,8 @@ theorem runP_good (flags : Nat) (w r : Bytes) (hw : GoodWord w ∨ GoodNum w) (h
       rw [hwe] at hc; simpa using hc.symm
     subst hcc
     have hne : w ++ r ≠ [] := by rw [hwe]; simp
-    have hq := noQuote_good w r hw hr
-    have hword := parseWord_good w r hw hr
+    have hq := noQuote_good w r hw hr.toW
+    have hword := parseWord_good w r hw hr.toW
     have hd := dispatch_wordStart c hc0
     unfold runP
     cases hdc : dispatch c <;> simp only [hdc, wordyP] at hd ⊢ <;> (try (exact absurd hd (by decide)))
@@ -351,17 +397,70 @@ theorem runP_good (flags : Nat) (w r : Bytes) (hw : GoodWord w ∨ GoodNum w) (h
     rw [hd]
     exact parseNumber_good w r hw hr
 
+/-- the part of a variable after its `@`: an identifier, possibly with dots (`host.tld`) -/
+def isVarBodyByte (c : UInt8) : Bool := isWordByteB c || c == 46
+def VarBody (vw : Bytes) : Prop := ∃ c t, vw = c :: t ∧ isWordStartB c = true ∧ t.all isVarBodyByte = true
+
+theorem varByte_facts (c : UInt8) (h : isVarBodyByte c = true) :
+    notVarAccept c = true ∧ c ≠ 96 ∧ c ≠ 39 ∧ c ≠ 34 ∧ c ≠ 64 := by
+  have := forall_byte (fun c => !isVarBodyByte c || (notVarAccept c && c != 96 && c != 39 && c != 34 && c != 64)) (by decide +kernel) c
+  simp only [h, Bool.not_true, Bool.false_or, Bool.and_eq_true, bne_iff_ne, ne_eq] at this
+  obtain ⟨⟨⟨⟨a, b⟩, c'⟩, d⟩, e⟩ := this
+  exact ⟨a, b, c', d, e⟩
+
+theorem var_space_facts : notVarAccept 32 = false ∧ dispatch 64 = .var := by decide +kernel
+
+theorem varBody_bytes {vw : Bytes} (h : VarBody vw) : vw.all isVarBodyByte = true ∧ 1 ≤ vw.length := by
+  obtain ⟨c, t, rfl, hc, ht⟩ := h
+  simp [isVarBodyByte, isWordByteB, hc, ht]
+
+/-- **`@name.with.dots` followed by a space or end of input is lexed as one variable** -/
+def varTok (vw : Bytes) : Token :=
+  { count := 1, cat := 118, pos := 1, len := clip vw.length, val := vw.take (clip vw.length) }
+
+theorem parseVar_good (vw r : Bytes) (hv : VarBody vw) (hr : Sep r) :
+    parseVar (64 :: (vw ++ r)) = .ok { tok := varTok vw, next := 1 + vw.length } := by
+  obtain ⟨hall, hlen⟩ := varBody_bytes hv
+  obtain ⟨c, t, hvw, hc, ht⟩ := hv
+  have hc0 : isVarBodyByte c = true := by simp [isVarBodyByte, isWordByteB, hc]
+  have hf := varByte_facts c hc0
+  have hnv : vw.all notVarAccept = true := all_imp hall (fun x hx => (varByte_facts x hx).1)
+  have hspn := spn_run notVarAccept vw r hnv hr var_space_facts.1
+  have hcl := clip_le vw.length
+  unfold parseVar
+  have h1 : (64 :: (vw ++ r))[1]? = some c := by rw [hvw]; rfl
+  have hn : 1 < (64 :: (vw ++ r)).length := by simp; omega
+  have hne64 : ((some c : Option UInt8) == some 64) = false := by
+    simp only [Option.some_beq_some, beq_eq_false_iff_ne, ne_eq]; exact hf.2.2.2.2
+  simp only [h1, hn, decide_true, Bool.true_and, hne64, Bool.false_eq_true, ↓reduceIte, bind, Except.bind, pure, Except.pure]
+  have hat : at' (64 :: (vw ++ r)) 1 = .ok c := by unfold at'; rw [h1]
+  rw [hat]
+  have e96 : (c == 96) = false := by simp [hf.2.1]
+  have eq : (c == 39 || c == 34) = false := by simp [hf.2.2.1, hf.2.2.2.1]
+  simp only [e96, eq, Bool.false_eq_true, ↓reduceIte]
+  have hsl : sliceFrom (64 :: (vw ++ r)) 1 = .ok (vw ++ r) := by
+    unfold sliceFrom; simp
+  rw [hsl]
+  simp only [hspn]
+  rw [assign_ok _ _ _ _ _ (by simp; omega)]
+  simp only []
+  rw [List.take_append_of_le_length (by omega)]
+  rfl
+
 /-- the text that remains to be scanned: good words and numbers, each followed by end of input or a
-space, with any number of spaces in between -/
+space, with any number of spaces in between; a word may also be followed directly by a variable
+(`name@host.tld`), and a variable may stand alone -/
 inductive Txt : Bytes → Prop
   | nil : Txt []
   | space {r : Bytes} : Txt r → Txt (32 :: r)
   | word {w r : Bytes} : (GoodWord w ∨ GoodNum w) → Sep r → Txt r → Txt (w ++ r)
+  | wordAt {w r : Bytes} : GoodWord w → Txt (64 :: r) → Txt (w ++ 64 :: r)
+  | var {vw r : Bytes} : VarBody vw → Sep r → Txt r → Txt (64 :: (vw ++ r))
 
 theorem goodTok_benign (cat : UInt8) (w : Bytes) (h : cat = 110 ∧ GoodWord w ∨ cat = 49 ∧ GoodNum w) (p : Nat) :
     BenignTok { goodTok cat w with pos := p } := by
   rcases h with ⟨rfl, hw⟩ | ⟨rfl, _⟩
-  · right; right
+  · right; right; left
     obtain ⟨_, hlen⟩ := goodWord_bytes hw
     refine ⟨rfl, clip_pos hlen, ?_⟩
     show clip w.length = 31 ∨ PhraseFree (w.take (clip w.length))
@@ -453,6 +552,47 @@ theorem tokLoop_txt (fuel : Nat) : ∀ (s : State), Txt (s.input.drop s.pos) →
         by simp [List.getElem?_set, hc], goodTok_benign cat w hcat _⟩⟩
       show Txt (s.input.drop (s.pos + w.length))
       rw [drop_add_of _ _ _ _ hd]; exact hr
+    | @wordAt w r hw hr =>
+      have hwl : 1 ≤ w.length := (goodWord_bytes hw).2
+      have hlt : s.pos < s.input.length := by
+        rcases Nat.lt_or_ge s.pos s.input.length with hl | hg
+        · exact hl
+        · rw [List.drop_of_length_le hg] at hd
+          have := congrArg List.length hd
+          simp at this
+      have hl0 : 0 < (s.input.drop s.pos).length := by rw [hd]; simp; omega
+      have hwr : 0 < (w ++ 64 :: r).length := by simp; omega
+      have hrun := runP_goodWord s.flags w (64 :: r) hw (Or.inr ⟨64, r, rfl, Or.inr rfl⟩) ((w ++ 64 :: r)[0]'hwr) (List.getElem?_eq_getElem hwr)
+      have h0 : (s.input.drop s.pos)[0] = (w ++ 64 :: r)[0]'hwr := by simp [hd]
+      simp only [hlt, ↓reduceIte, sliceFrom_ok s.input s.pos (Nat.le_of_lt hlt), at'_ok hl0, h0,
+        bind, Except.bind, pure, Except.pure]
+      rw [hd, hrun]
+      simp only [tvSet_ok s s.cur _ hc]
+      have hne0 : (({ goodTok 110 w with pos := (goodTok 110 w).pos + s.pos } : Token).cat != 0) = true := rfl
+      simp only [hne0, ↓reduceIte]
+      refine ⟨true, _, rfl, ?_, rfl, rfl, rfl, rfl, fun _ => ⟨{ goodTok 110 w with pos := (goodTok 110 w).pos + s.pos },
+        by simp [List.getElem?_set, hc], goodTok_benign 110 w (Or.inl ⟨rfl, hw⟩) _⟩⟩
+      show Txt (s.input.drop (s.pos + w.length))
+      rw [drop_add_of _ _ _ _ hd]; exact hr
+    | @var vw r hv hsep hr =>
+      have hvl : 1 ≤ vw.length := (varBody_bytes hv).2
+      have hlt : s.pos < s.input.length := lt_of_drop_cons _ _ _ _ hd
+      have hl0 : 0 < (s.input.drop s.pos).length := by rw [hd]; simp
+      have h0 : (s.input.drop s.pos)[0] = 64 := by simp [hd]
+      simp only [hlt, ↓reduceIte, sliceFrom_ok s.input s.pos (Nat.le_of_lt hlt), at'_ok hl0, h0, var_space_facts.2,
+        bind, Except.bind, pure, Except.pure, runP]
+      rw [hd, parseVar_good vw r hv hsep]
+      simp only [tvSet_ok s s.cur _ hc]
+      have hne0 : (({ varTok vw with pos := (varTok vw).pos + s.pos } : Token).cat != 0) = true := rfl
+      simp only [hne0, ↓reduceIte]
+      refine ⟨true, _, rfl, ?_, rfl, rfl, rfl, rfl, fun _ => ⟨{ varTok vw with pos := (varTok vw).pos + s.pos },
+        by simp [List.getElem?_set, hc], Or.inr (Or.inr (Or.inr rfl))⟩⟩
+      show Txt (s.input.drop (s.pos + (1 + vw.length)))
+      have : s.input.drop s.pos = (64 :: vw) ++ r := by rw [hd]; rfl
+      have := drop_add_of _ _ _ _ this
+      simp only [List.length_cons] at this
+      rw [show s.pos + (1 + vw.length) = s.pos + (vw.length + 1) by omega]
+      rw [this]; exact hr
 
 /-- no virtual opening quote (the as-is readings) -/
 def NoQ (flags : Nat) : Prop := (hasFlag flags flagQuoteSingle || hasFlag flags flagQuoteDouble) = false
@@ -542,7 +682,7 @@ theorem fetch_txt (k : Nat) (fuel : Nat) : ∀ (f f' : FS), ScanOK f.s → BInv 
           have : s'.tv[f.pos]? = some t := ht
           rw [this]
         simp only [↓reduceIte, hget] at h
-        have h99 : (t.cat == 99) = false := hbt.ne 99 (by decide) (by decide) (by decide)
+        have h99 : (t.cat == 99) = false := hbt.ne 99 (by decide) (by decide) (by decide) (by decide)
         simp only [h99, Bool.false_eq_true, ↓reduceIte] at h
         exact ih _ f' hs' ⟨hbtv, Or.inl rfl⟩ h
     · simp only [hc, Bool.false_eq_true, ↓reduceIte, pure, Except.pure, Except.ok.injEq] at h
